@@ -89,6 +89,9 @@ def write_vcf(path, gene, recs, enc, other=None, extra_records=()):
              "#CHROM\tPOS\tID\tREF\tALT\tQUAL\tFILTER\tINFO\tFORMAT\t" + "\t".join(names)]
     rows = []
     for pos1, ref, alts, gts in recs:
+        if extras == "delref" and len(ref) > 1 and all(len(a) == 1 for a in alts):
+            # the file's reference differs from the RefSeq-derived one in a deleted base
+            ref = ref[:-1] + {"A": "C", "C": "G", "G": "T", "T": "A"}[ref[-1]]
         cols = []
         for si in range(ns):
             if si == idx:
@@ -152,7 +155,7 @@ class C16(Check):
         yield ("phased", (spec, build, pair, (mnv_form, True, swapped, extras, ns, idx)))
         yield ("adjacent+phased", (spec, build, pair, ("adjacent", True, swapped, extras, ns, idx)))
         yield ("swapped", (spec, build, pair, (mnv_form, phased, True, extras, ns, idx)))
-        for e in ("complex", "missing", "haploid"):
+        for e in ("complex", "missing", "haploid", "delref"):
             yield (e, (spec, build, pair, (mnv_form, phased, swapped, e, ns, idx)))
         for ns2, idx2 in ((2, 0), (2, 1), (3, 1), (3, 2)):
             yield (f"samples={ns2}/{idx2}", (spec, build, pair, (mnv_form, phased, swapped, extras, ns2, idx2)))
